@@ -1121,7 +1121,7 @@ pub fn run_c14(id: &str, tier: &str, seed: u64) -> i32 {
             violations: st.violations,
             samples: st.samples.iter().map(|s| json!(s)).collect(),
             rules: vec!["R14a", "R14b", "R14c", "R14d"],
-            rule_text: "differential: payment B (1-3 HTLCs; funded / partial / rejected; fixed or amountless invoice; every pay outcome; fused or split RPC replies) is run alone and next to a payment A frozen at one of 9 suspension points (each RPC kind of its lifecycle, or its MPP timer) under the same canonical schedule; B's RPC sequence, replies and answers must be identical and its answer times within 25 ms; plus B alone vs B with an HTLC of another hash that carries B's invoice (R14d: nothing pooled across hashes); a case is one (B scenario, freeze point) pair; distinct = distinct (freeze point, B shape, pay outcome) classes in which A was verifiably frozen",
+            rule_text: "differential: payment B (1-3 HTLCs; funded / partial / rejected; fixed or amountless invoice; every pay outcome; fused or split RPC replies) is run alone and next to a payment A frozen at one of 15 (suspension point, shape of A) combinations (each RPC kind of its lifecycle, or its MPP timer; A a single part, two parts failing the expiry test, or a completing part followed by a failing one) under the same canonical schedule; B's RPC sequence, replies and answers must be identical and its answer times within 25 ms; plus B alone vs B with an HTLC of another hash that carries B's invoice (R14d: nothing pooled across hashes); a case is one (B scenario, freeze point) pair; distinct = distinct (freeze point, B shape, pay outcome) classes in which A was verifiably frozen",
             extra: json!({"b_calls_compared": st.b_calls_compared, "pairs_where_A_did_not_reach_the_freeze_point": st.not_frozen, "freeze_points": FREEZE_POINTS.iter().map(|f| format!("{}#{}", f.0, f.1)).collect::<Vec<_>>(), "e2e_isolation_sessions(real rpc.rs)": e2e_cov}),
             assumptions: vec!["attempt ids and pay labels (wall clock) are abstracted before comparing".into(), "B scenarios are scheduled canonically so that adding A cannot legitimately change B's interleaving".into(), "E2E part: a 10 s wall-clock limit for payment B while A is stuck; the fake node answers B's RPCs at once".into()],
             inconclusive,
